@@ -461,6 +461,43 @@ package jmespath
 //@   ensures {C16} [json-result] err == nil ==> specJSONVal(result)
 //@   ensures {C10} [unknown-function] !mapHas(theFunctionTable(), name) ==> err != nil
 //@   ensures {C10} [ill-typed-or-wrong-arity] mapHas(theFunctionTable(), name) && !specArgsOK(theFunctionTable()[name].arguments, arguments) ==> err != nil
+//@   ensures {C09} [abs: abs] name == "abs" && specArgsOK(theFunctionTable()["abs"].arguments, arguments) ==> (isNum(result) && same(numOf(result), specAbs(numOf(arguments[0]))))
+//@   ensures {C09} [ceil: ceil] name == "ceil" && specArgsOK(theFunctionTable()["ceil"].arguments, arguments) ==> (isNum(result) && same(numOf(result), specCeil(numOf(arguments[0]))))
+//@   ensures {C09} [floor: floor] name == "floor" && specArgsOK(theFunctionTable()["floor"].arguments, arguments) ==> (isNum(result) && same(numOf(result), specFloor(numOf(arguments[0]))))
+//@   ensures {C09} [length: length-in-code-points-elements-members] name == "length" && specArgsOK(theFunctionTable()["length"].arguments, arguments) ==> (isNum(result) && same(numOf(result), specLength(arguments[0])))
+//@   ensures {C09} [starts-with: starts-with] name == "starts_with" && specArgsOK(theFunctionTable()["starts_with"].arguments, arguments) ==> (isBool(result) && (boolOf(result) <==> specStartsWith(strOf(arguments[0]), strOf(arguments[1]))))
+//@   ensures {C09} [ends-with: ends-with] name == "ends_with" && specArgsOK(theFunctionTable()["ends_with"].arguments, arguments) ==> (isBool(result) && (boolOf(result) <==> specEndsWith(strOf(arguments[0]), strOf(arguments[1]))))
+//@   ensures {C09} [type: type-name] name == "type" && specArgsOK(theFunctionTable()["type"].arguments, arguments) ==> (isStr(result) && strOf(result) == specType(arguments[0]))
+//@   ensures {C09} [to-array: arrays-unchanged] name == "to_array" && specArgsOK(theFunctionTable()["to_array"].arguments, arguments) ==> (isArr(arguments[0]) ==> same(result, arguments[0]))
+//@   ensures {C09} [to-array: singleton-otherwise] name == "to_array" && specArgsOK(theFunctionTable()["to_array"].arguments, arguments) ==> (!isArr(arguments[0]) ==> isArr(result) && arrLen(result) == 1 && same(arrAt(result, 0), arguments[0]))
+//@   ensures {C09} [to-string: strings-unchanged] name == "to_string" && specArgsOK(theFunctionTable()["to_string"].arguments, arguments) ==> (isStr(arguments[0]) ==> same(result, arguments[0]))
+//@   ensures {C09} [to-string: json-text-that-decodes-back] name == "to_string" && specArgsOK(theFunctionTable()["to_string"].arguments, arguments) ==> (!isStr(arguments[0]) ==> isStr(result) && specDecodesTo(strOf(result), arguments[0]))
+//@   ensures {C09} [to-number: to-number] name == "to_number" && specArgsOK(theFunctionTable()["to_number"].arguments, arguments) ==> (same(result, specToNumber(arguments[0])))
+//@   ensures {C09} [not-null: first-non-null] name == "not_null" && specArgsOK(theFunctionTable()["not_null"].arguments, arguments) ==> (same(result, specNotNullFrom(arguments, 0)))
+//@   ensures {C09} [avg: mean-of-the-left-to-right-sum] name == "avg" && specArgsOK(theFunctionTable()["avg"].arguments, arguments) ==> (same(result, specAvg(arrOf(arguments[0]))))
+//@   ensures {C09} [sum: left-to-right-sum] name == "sum" && specArgsOK(theFunctionTable()["sum"].arguments, arguments) ==> (isNum(result) && same(numOf(result), specSum(arrOf(arguments[0]))))
+//@   ensures {C09} [contains: substring] name == "contains" && specArgsOK(theFunctionTable()["contains"].arguments, arguments) ==> (isStr(arguments[0]) ==> (boolOf(result) <==> (isStr(arguments[1]) && specStrContains(strOf(arguments[0]), strOf(arguments[1])))))
+//@   ensures {C09} [contains: some-element-is-deeply-equal] name == "contains" && specArgsOK(theFunctionTable()["contains"].arguments, arguments) ==> (isArr(arguments[0]) ==> (boolOf(result) <==> specContainsFrom(arrOf(arguments[0]), 0, arguments[1])))
+//@   ensures {C09} [keys: every-member-name-once] name == "keys" && specArgsOK(theFunctionTable()["keys"].arguments, arguments) ==> (same(arrOf(result), specKeysFrom(objOf(arguments[0]), 0, specEmptyList())))
+//@   ensures {C09} [values: every-member-value-once] name == "values" && specArgsOK(theFunctionTable()["values"].arguments, arguments) ==> (same(arrOf(result), specObjValuesFrom(objOf(arguments[0]), 0, specEmptyList())))
+//@   ensures {C09} [merge: later-arguments-win] name == "merge" && specArgsOK(theFunctionTable()["merge"].arguments, arguments) ==> (same(objOf(result), specMergeFrom(arguments, 0, emptyObj())))
+//@   ensures {C09} [join: joined-with-the-separator] name == "join" && specArgsOK(theFunctionTable()["join"].arguments, arguments) ==> (isStr(result) && strOf(result) == specJoin(specStrsFrom(arrOf(arguments[1]), 0, emptyStrs()), strOf(arguments[0])))
+//@   ensures {C09} [reverse: code-points-in-reverse-order] name == "reverse" && specArgsOK(theFunctionTable()["reverse"].arguments, arguments) ==> (isStr(arguments[0]) ==> isStr(result) && len(runesOf(strOf(result))) == len(runesOf(strOf(arguments[0]))) && (forall q int :: 0 <= q && q < len(runesOf(strOf(result))) ==> runesOf(strOf(result))[q] == runesOf(strOf(arguments[0]))[len(runesOf(strOf(result))) - 1 - q]))
+//@   ensures {C09} [reverse: elements-in-reverse-order] name == "reverse" && specArgsOK(theFunctionTable()["reverse"].arguments, arguments) ==> (isArr(arguments[0]) ==> isArr(result) && arrLen(result) == arrLen(arguments[0]) && (forall q int :: 0 <= q && q < arrLen(result) ==> same(arrAt(result, q), arrAt(arguments[0], arrLen(result) - 1 - q))))
+//@   ensures {C09} [max: maximum] name == "max" && specArgsOK(theFunctionTable()["max"].arguments, arguments) ==> (same(result, specMax(arrOf(arguments[0]))))
+//@   ensures {C09} [min: minimum] name == "min" && specArgsOK(theFunctionTable()["min"].arguments, arguments) ==> (same(result, specMin(arrOf(arguments[0]))))
+//@   ensures {C09} [sort: same-length] name == "sort" && specArgsOK(theFunctionTable()["sort"].arguments, arguments) ==> (arrLen(result) == arrLen(arguments[0]))
+//@   ensures {C09} [sort: numbers-ascending] name == "sort" && specArgsOK(theFunctionTable()["sort"].arguments, arguments) ==> (allNum(arguments[0]) ==> (forall p int :: forall q int :: 0 <= p && p < q && q < arrLen(result) ==> !(numOf(arrAt(result, q)) < numOf(arrAt(result, p)))))
+//@   ensures {C09} [sort: strings-ascending-by-code-point] name == "sort" && specArgsOK(theFunctionTable()["sort"].arguments, arguments) ==> (!allNum(arguments[0]) ==> (forall p int :: forall q int :: 0 <= p && p < q && q < arrLen(result) ==> !(strOf(arrAt(result, q)) < strOf(arrAt(result, p)))))
+//@   ensures {C09} [map: one-result-per-element-nulls-kept] name == "map" && specArgsOK(theFunctionTable()["map"].arguments, arguments) ==> (err == nil ==> arrLen(result) == arrLen(arguments[1]))
+//@   ensures {C09} [map: fails-exactly-when-an-element-fails] name == "map" && specArgsOK(theFunctionTable()["map"].arguments, arguments) ==> (pureTree(refOf(arguments[0])) ==> ((err == nil) <==> snd(specMap(refOf(arguments[0]), arrOf(arguments[1])))))
+//@   ensures {C09} [map: each-element-is-the-current-node-once] name == "map" && specArgsOK(theFunctionTable()["map"].arguments, arguments) ==> (pureTree(refOf(arguments[0])) && err == nil ==> same(arrOf(result), fst(specMap(refOf(arguments[0]), arrOf(arguments[1])))))
+//@   ensures {C09} [max-by: fails-exactly-when-a-key-fails-or-has-the-wrong-type] name == "max_by" && specArgsOK(theFunctionTable()["max_by"].arguments, arguments) ==> (pureTree(refOf(arguments[1])) ==> ((err == nil) <==> snd(specMaxBy(refOf(arguments[1]), arrOf(arguments[0])))))
+//@   ensures {C09} [max-by: first-extremal-element-null-for-empty] name == "max_by" && specArgsOK(theFunctionTable()["max_by"].arguments, arguments) ==> (pureTree(refOf(arguments[1])) && err == nil ==> same(result, fst(specMaxBy(refOf(arguments[1]), arrOf(arguments[0])))))
+//@   ensures {C09} [min-by: fails-exactly-when-a-key-fails-or-has-the-wrong-type] name == "min_by" && specArgsOK(theFunctionTable()["min_by"].arguments, arguments) ==> (pureTree(refOf(arguments[1])) ==> ((err == nil) <==> snd(specMinBy(refOf(arguments[1]), arrOf(arguments[0])))))
+//@   ensures {C09} [min-by: first-extremal-element-null-for-empty] name == "min_by" && specArgsOK(theFunctionTable()["min_by"].arguments, arguments) ==> (pureTree(refOf(arguments[1])) && err == nil ==> same(result, fst(specMinBy(refOf(arguments[1]), arrOf(arguments[0])))))
+//@   ensures {C09} [sort-by: same-length] name == "sort_by" && specArgsOK(theFunctionTable()["sort_by"].arguments, arguments) ==> (err == nil ==> arrLen(result) == arrLen(arguments[0]))
+//@   ensures {C09} [sort-by: ascending-by-key] name == "sort_by" && specArgsOK(theFunctionTable()["sort_by"].arguments, arguments) ==> (err == nil && arrLen(arguments[0]) > 0 && pureTree(refOf(arguments[1])) ==> (forall p int :: forall q int :: 0 <= p && p < q && q < arrLen(result) ==> !(specKeyIsNum(refOf(arguments[1]), arrAt(arguments[0], 0)) ? specKeyLessNum(refOf(arguments[1]), arrAt(result, q), arrAt(result, p)) : specKeyLessStr(refOf(arguments[1]), arrAt(result, q), arrAt(result, p)))))
 
 //@ func (*treeInterpreter).fieldFromStruct
 //@   props C05
